@@ -347,23 +347,35 @@ def gen_fault_points():
 GEN_IMPORTS_ROWS = [{"how": "none"}, {"how": "module"}, {"how": "file"}, {"how": "other"},
                     {"how": "symbol", "form": "obj"}, {"how": "symbol", "form": "member"},
                     {"how": "symbol", "form": "reexported"}, {"how": "symbol", "form": "from-mod"},
-                    {"how": "symbol", "form": "bare"}]
+                    {"how": "symbol", "form": "bare"}, {"how": "package"}]
 GEN_PREPEND_COLS = ["none", "final-newline", "no-final-newline", "docstring-first", "imports-input-module"]
+# how --output-filename spells the output file x whether that file exists: absolute, relative to the working directory,
+# with a literal `~` (HOME is the scratch root), through a symlinked directory
+GEN_OUT_ROWS = [(sp, ex) for sp in ("plain", "dot-relative", "tilde", "symlinked-dir") for ex in (False, True)]
 
 
 def gen_cli_cases(rng, n_random):
     """argument combinations of `gen`: the full grid --imports-from-file shape (absent, module name, file path, another
     file, symbol path of depth 1..4) x --prepend shape (absent, text with / without final newline, docstring first,
     importing the input module) with type, name template, input module and its layout (flat / package / nested package)
-    drawn per cell, then n_random freely drawn ones; about one in eight onto an existing output file"""
+    drawn per cell, then n_random freely drawn ones; about one in eight onto an existing output file; then the grid
+    output spelling x output exists (GEN_OUT_ROWS), the other arguments drawn per cell.  The working directory (the
+    project directory / elsewhere) is drawn per case"""
     import fam_gen
     cases = []
 
-    def one(imports, col):
+    def one(imports, col, out=None):
         kw = dict(domain="wellformed", mostly_good=True, mapping_ref="ok", plain_keys=True,
                   type_=rng.choice(["class", "argparse", "function"]),
                   name_tpl=rng.choice(fam_gen.TEMPLATES_GOOD[:2] * 3 + fam_gen.TEMPLATES_GOOD),
                   existing=None if rng.random() < 0.88 else rng.choice(["KEEP = 1\n", "# old file", ""]))
+        if out is not None:
+            kw["existing"] = rng.choice(["KEEP = 1\n", "# hand written\nclass Keep(object):\n    x: int = 1\n", "# old file",
+                                         ""]) if out[1] else None
+        if imports is not None and imports["how"] == "package":
+            kw["layout"] = {"kind": "pkg", "depth": rng.choice([1, 1, 2]), "reexport": rng.random() < 0.5,
+                            "init_imports": rng.sample(fam_gen.IMPORT_LINES, rng.choice([0, 1, 2, 3]))}
+            imports = {"how": "package", "level": rng.choice(["top", "top", "parent"])}
         if imports is not None:
             if imports["how"] == "other":
                 lines = rng.sample(fam_gen.IMPORT_LINES, rng.choice([1, 1, 2, 3]))
@@ -394,12 +406,15 @@ def gen_cli_cases(rng, n_random):
         c = fam_gen.gen_case(rng, **kw)
         c["opts"] = {"emit_call": False, "emit_default_doc": True, "decorator_list": None}
         c["route"] = "cli"
+        c["out"] = {"spelling": out[0]} if out is not None else fam_gen.draw_out(rng, c["existing"])
         return c
     for imports in GEN_IMPORTS_ROWS:
         for col in GEN_PREPEND_COLS:
             cases.append(one(imports, col))
     for _ in range(n_random):
         cases.append(one(None, None))
+    for out in GEN_OUT_ROWS:
+        cases.append(one(None, None, out))
     return cases
 
 
@@ -411,8 +426,8 @@ def _gen_cli_run(case):
     ws = fam_gen.materialise(case)
     try:
         before = L.snapshot(ws["tmp"])
-        r = L.run_cli(prop_C19._cli_cmd(case, ws)[3:], cwd=ws["tmp"],
-                      extra_env={"PYTHONPATH": REPO + os.pathsep + ws["tmp"], "PYTHONDONTWRITEBYTECODE": "1"})
+        r = L.run_cli(prop_C19._cli_cmd(case, ws)[3:], cwd=ws.get("cwd") or ws["tmp"],
+                      extra_env=dict(ws.get("env", {}), PYTHONPATH=REPO + os.pathsep + ws["tmp"], PYTHONDONTWRITEBYTECODE="1"))
         after = L.snapshot(ws["tmp"])
     finally:
         shutil.rmtree(ws["tmp"], ignore_errors=True)
@@ -458,14 +473,18 @@ def gen_cli_points(rng, n_random):
                                             else "no-final-newline")
         region = "existing-output" if c["existing"] is not None else "outside-C19-domain" if cls == "out-of-domain" \
             else "unmodelled" if mr == "(err Unmodelled)" else "in-guard_C19" if guard else "C19-class:%s" % cls
-        in_guard = region == "in-guard_C19"
+        spelling = (c.get("out") or {}).get("spelling", "plain")
+        # a literal `~` names a file in a directory called "~" that does not exist: what the C19 theorems say about gen
+        # succeeding assumes an output that can be created, so such a point is judged for "no damage" only
+        in_guard = region == "in-guard_C19" and spelling != "tilde"
         what = _gen_cli_judge(c, run, in_guard)
         hist["gen-cli:%s:%s" % (region, "ok" if what is None else "FAILS")] += 1
         hist["gen-cli:cell:" + cell] += 1
+        hist["gen-cli:output-%s:%s:cwd-%s" % (spelling, "existing" if c["existing"] is not None else "fresh", c.get("cwd"))] += 1
         if what is not None:
             fails.append({"case": {"gen_cli": {k: v for k, v in c.items() if k != "tags"}}, "what": what, "class": None})
         elif in_guard or c["existing"] is not None:
-            seen.add(dumps([cell, c["type_"], sorted((c.get("layout") or {}).items()), c["existing"] is not None]))
+            seen.add(dumps([cell, c["type_"], sorted((c.get("layout") or {}).items()), c["existing"] is not None, spelling]))
     return fails, len(cases), hist, len(seen)
 
 
@@ -535,7 +554,8 @@ def check_case(case):
         c = case["gen_cli"]
         cl, mr = prop_C19._classify([c])
         _, guard = prop_C19._decode_class(cl[0])
-        what = _gen_cli_judge(c, _gen_cli_run(c), guard and c["existing"] is None and mr[0] != "(err Unmodelled)")
+        what = _gen_cli_judge(c, _gen_cli_run(c), guard and c["existing"] is None and mr[0] != "(err Unmodelled)"
+                              and (c.get("out") or {}).get("spelling") != "tilde")
         return what is None, what or ""
     if case.get("command") == "gen":
         f, _ = gen_fault_points()
